@@ -413,7 +413,7 @@ pub fn run(cfg: &RunCfg) -> Report {
         "canonicalisation of an accepted package uses the library's own serializer (its round trip is C17's subject)".into(),
     ];
     let deep = cfg.tier == Tier::Thorough;
-    let n = cfg.cases(160, 4_000);
+    let n = cfg.cases(480, 16_000);
     rep.absorb(
         "tamper",
         explore(cfg, "C09", n, move || content(6, 24), move |c: &Content, st| eval(c, st, deep)),
